@@ -139,11 +139,16 @@ func runProps(ids []string, tier string) int {
 		p = nil
 		debug.FreeOSMemory()
 	}
+	var crossRefs []string
+	if tier == "thorough" {
+		crossRefs = crossReferences()
+	}
 	code := 0
 	for _, id := range ids {
 		oc := outcomes[id]
 		if tier == "thorough" {
 			runControls(oc)
+			oc.CrossRefs = crossRefs
 		}
 		if c := oc.finish(); c != 0 {
 			code = 1
